@@ -1,5 +1,26 @@
 #include "gen.h"
 
+void far_copies(uint8_t *d, size_t n, uint64_t seed)
+{
+        Rng r(seed, "farcopy");
+        size_t i = 4096 + (size_t) r.below(4096);
+        while (i < n) {
+                int cluster = 2 + (int) r.below(5);
+                for (int c = 0; c < cluster && i < n; c++) {
+                        size_t len = 3 + (size_t) (r.chance(1, 2) ? r.below(12) : r.below(255));
+                        size_t dist = 4096 + (size_t) r.below(28672);
+                        if (dist > i)
+                                dist = i;
+                        if (len > n - i)
+                                len = n - i;
+                        for (size_t k = 0; k < len; k++)
+                                d[i + k] = d[i + k - dist];
+                        i += len;
+                }
+                i += 40 + (size_t) r.below(700);
+        }
+}
+
 std::vector<uint8_t> make_data(const Json &spec)
 {
         int kind = (int) (((uint64_t) spec.geti("k")) % DK_NKINDS);
@@ -67,6 +88,11 @@ std::vector<uint8_t> make_data(const Json &spec)
                 }
                 break;
         }
+        case DK_FARCOPY: // incompressible bytes with clusters of short copies from 4-32 KiB back: the longest tokens a dynamic block can hold
+                for (auto &b : d)
+                        b = (uint8_t) r.u64();
+                far_copies(d.data(), d.size(), r.u64());
+                break;
         case DK_RUNS: {
                 uint64_t i = 0;
                 while (i < n) {
